@@ -318,6 +318,9 @@ class PathAnalysis:
         self._keyed: Dict[str, List[Optional[Tuple[str, FrozenSet[Formula]]]]] = {}
         self._ids = {}
         self.params = set(fn.all_params)
+        # names bound by a plain store in this function (or an enclosing one for nested functions): only for those do we see
+        # every writer; a module-level / enclosing collection is also filled by other calls and other functions
+        self.own_names = {n.id for n in ast.walk(fn.node) if isinstance(n, ast.Name) and isinstance(n.ctx, ast.Store)}
         self._run()
 
     # -------------------------------------------------------------- ids / versions
@@ -706,7 +709,7 @@ class PathAnalysis:
             self.exec_block(self.fn.node.body, [w0])
             new_elem: Dict[str, Optional[Dict[str, FrozenSet[Formula]]]] = {}
             for name, entries in self._inserts.items():
-                if name in self.params or any(e is None for e in entries):
+                if name in self.params or name not in self.own_names or any(e is None for e in entries):
                     new_elem[name] = None
                     continue
                 real = [e for e in entries if e != "EMPTY"]
@@ -717,7 +720,7 @@ class PathAnalysis:
             new_keyed: Dict[str, Optional[Tuple[str, FrozenSet[Formula]]]] = {}
             for name, entries in self._keyed.items():
                 shapes = {e[0] for e in entries if e is not None}
-                if name in self.params or any(e is None for e in entries) or len(shapes) != 1 \
+                if name in self.params or name not in self.own_names or any(e is None for e in entries) or len(shapes) != 1 \
                         or self._inserts_unknown(name):
                     new_keyed[name] = None
                     continue
